@@ -727,10 +727,33 @@ func installRetries(n *harness.Node, r *orch.Result, seed int64, e forge.Eras) f
 	// NullifyBurnAddress finding, which C10 enumerates.)
 	var nextH uint32
 	stmtN, histN := 0, 0
+	inBlock := false
 	vdriver.Set(&vdriver.Hooks{Decide: func(ev *vdriver.Event) (vdriver.Action, time.Duration) {
 		if ev.Kind == vdriver.KBegin {
 			mu.Lock()
 			stmtN, histN = 0, 0
+			inBlock = true
+			mu.Unlock()
+			return vdriver.Proceed, 0
+		}
+		if ev.Kind == vdriver.KCommit || ev.Kind == vdriver.KRollback {
+			mu.Lock()
+			inBlock = false
+			mu.Unlock()
+			return vdriver.Proceed, 0
+		}
+		if !ev.InTx && ev.Kind == vdriver.KQuery && !strings.Contains(ev.SQL, "pn_rate") {
+			// a read the block does outside its transaction (previous winners, the stakers' rich list) fails once:
+			// the block fails and is applied again. (Rate reads are left alone: a failed one ends the process by
+			// design, which C10 and C02 cover with fresh processes.)
+			mu.Lock()
+			h := nextH
+			if inBlock && h != 0 && h != e.V20Dev && h != e.V202 && pick(h, 0) && !failedDB[h] && (uint64(h)*2246822519>>4)%3 == 0 {
+				failedDB[h] = true
+				mu.Unlock()
+				r.Count("blocks_applied_twice_after_a_failed_read_outside_the_transaction", 1)
+				return vdriver.FailInstead, 0
+			}
 			mu.Unlock()
 			return vdriver.Proceed, 0
 		}
